@@ -45,6 +45,7 @@ func init() {
 	}
 
 	const ld = "v2/pkg/engine/resolve/loader.go"
+	const ldr = ld
 	const sf = "v2/pkg/engine/postprocess/schedule_fetches.go"
 	specs["C08"] = []item{
 		{Kind: "conds", File: ld, Func: "Loader.resolveFetchNodeWithCtx", Name: "nodeKinds"},
@@ -72,5 +73,27 @@ func init() {
 		{Kind: "calls", File: rs, Func: "Resolvable.walkFields", Name: "fieldsConds", Match: []string{"if", "astjson.SetNull", "r.walkNode"}},
 		{Kind: "calls", File: rs, Func: "Resolvable.Resolve", Name: "resolveSkeleton", Match: []string{"r.walkObject", "r.printErrors", "r.printData", "if"}},
 		{Kind: "calls", File: "v2/pkg/engine/resolve/node_object.go", Func: "Object.isAbstract", Name: "abstractConds", Match: []string{"if", "return"}},
+	}
+
+	const isf = "v2/pkg/engine/resolve/inbound_request_singleflight.go"
+	const ssf = "v2/pkg/engine/resolve/subgraph_request_singleflight.go"
+	const rsv = "v2/pkg/engine/resolve/resolve.go"
+	specs["C11"] = []item{
+		{Kind: "calls", File: isf, Func: "InboundRequestSingleFlight.GetOrCreate", Name: "getOrCreate",
+			Match: []string{"if", "shard.m.LoadOrStore", "request.AddFollower", "select", "recv:request.Done", "recv:ctx.ctx.Done()", "return"}},
+		{Kind: "calls", File: isf, Func: "InboundRequestSingleFlight.FinishOk", Name: "finishOk",
+			Match: []string{"if", "shard.m.Delete", "req.HasFollowers", "copy", "close(req.Done)"}},
+		{Kind: "calls", File: isf, Func: "InboundRequestSingleFlight.FinishErr", Name: "finishErr",
+			Match: []string{"if", "shard.m.Delete", "close(req.Done)"}},
+		{Kind: "calls", File: ssf, Func: "SubgraphRequestSingleFlight.GetOrCreateItem", Name: "getOrCreateItem",
+			Match: []string{"shard.items.LoadOrStore", "return"}},
+		{Kind: "calls", File: ssf, Func: "SubgraphRequestSingleFlight.Finish", Name: "finishItem",
+			Match: []string{"shard.items.Delete", "close(item.loaded)"}},
+		{Kind: "calls", File: ldr, Func: "Loader.loadByContext", Name: "loadByContext",
+			Match: []string{"if", "l.singleFlightAllowed", "l.singleFlight.GetOrCreateItem", "select", "recv:item.loaded", "recv:ctx.Done()", "defer:l.singleFlight.Finish", "l.loadByContextDirect"}},
+		{Kind: "calls", File: rsv, Func: "Resolver.ArenaResolveGraphQLResponse", Name: "arenaResolve",
+			Match: []string{"if", "r.inboundRequestSingleFlight.GetOrCreate", "r.inboundRequestSingleFlight.FinishErr", "r.inboundRequestSingleFlight.FinishOk", "writer.Write", "loader.LoadGraphQLResponseData", "resolvable.Resolve"}},
+		{Kind: "calls", File: "v2/pkg/engine/resolve/response.go", Func: "GraphQLResponse.SingleFlightAllowed", Name: "inboundAllowed", Match: []string{"if", "return"}},
+		{Kind: "calls", File: ldr, Func: "Loader.singleFlightAllowed", Name: "subgraphAllowed", Match: []string{"if", "return"}},
 	}
 }
